@@ -40,7 +40,7 @@ var propertyConfigs = map[string]*propertyConfig{
 	"C03": {
 		ID: "C03", Packages: []string{"./..."}, Level: "proof",
 		Explain: "Abstract contracts (afunc blocks in core/rlwe/zz_contracts_verif.go) on secret-key encryption of zero (both the Q and the QP variant, every NTT flag and degree case), its dispatcher for *Ciphertext, public-key encryption without P, and Decrypt (degree 1 and 2): " +
-			"c0 + c1*s equals exactly one fresh draw of the declared error distribution, public-key encryption adds two distinct error draws and one secret draw, decryption computes c0 + c1*s (+ c2*s^2) and copies the metadata.  The zero encryption is in Montgomery form exactly when the receiver's metadata say so, on the secret-key path and on the public-key path without P (finding F47).",
+			"c0 + c1*s equals exactly one fresh draw of the declared error distribution, public-key encryption adds two distinct error draws and one secret draw, decryption computes c0 + c1*s (+ c2*s^2) and copies the metadata.  The zero encryption is in Montgomery form exactly when the receiver's metadata say so, on the secret-key path and on the public-key path without P (finding F47).  Added in 13.42: a receiver of degree 2 gets its uniform component in the domain its metadata announce (finding F85: it stayed in the NTT domain when IsNTT is false; the clause had read `degree 1` from the code), and the zero encryption over QP is in Montgomery form exactly when the metadata say so (finding F86; contract per flag, as for the ciphertext variant).",
 		Assumptions: engineBAssumptions, Trusted: stdTrusted,
 	},
 	"C05": {
@@ -66,7 +66,7 @@ var propertyConfigs = map[string]*propertyConfig{
 			"Mul of two degree-1 ciphertexts without relinearisation: the degree-2 tensor (a0*b0, a0*b1 + a1*b0, a1*b1) out of the Montgomery domain, receiver distinct or equal to either operand.  " +
 			"With a PLAINTEXT operand at equal scales: the plaintext takes part in the first component only (Add / Sub) or multiplies every component (Mul).  MulRelin: the third component of the tensor goes through the gadget product with the key set's relinearisation key (both NAMED), degree 1.  MulThenAdd with a scalar: the accumulator keeps its degree and ends at the common level (finding F44).  A product of operands of total degree 3 is refused.  " +
 			"Rotate / Conjugate: the automorphism of the ciphertext (contract of C04) for the Galois element of the rotation (NAMED uf_galel(k); that it is 5^k is property C11), respectively for the element of order two.  " +
-			"Rescale: on success the receiver has the degree and flags of the input whatever it held, every index is in range (obligation kind index), and an input at level 0 is refused with an error.  RescaleTo (bounded instance, input at level 1; clause safety rows) never asks for a negative level: it stops at level 0 (finding F81).",
+			"Rescale: on success the receiver has the degree and flags of the input whatever it held, every index is in range (obligation kind index), and an input at level 0 is refused with an error.  RescaleTo (bounded instance, input at level 1; clause safety rows) never asks for a negative level: it stops at level 0 (finding F81).  Mul with a real scalar (clause safety index): no index below zero when fewer levels are left than one rescaling consumes (finding F84).",
 		Assumptions: append(append([]string{}, engineBAssumptions...), "the outcome of comparing two scales is NAMED (cmpval), not interpreted: the contracts cover the branch for equal scales",
 			"the conversion of a scalar to RNS form (bigComplexToRNSScalar), the row operation with a scalar (evaluateWithScalar), Scale.Mul / Div and the rounded divisions are TRUSTED abstract leaves",
 			"NOT decided: everything numerical (approximation error, precision, noise), operands at different scales (integer ratio rescaling), the VALUE of the scale recorded by a product or a rescale, relinearisation, rotations, plaintext and vector operands, programs"),
